@@ -640,8 +640,22 @@ class Prefix:
             return IdentityPrefix
 
         key = (base, exponent)
-        if key in cls._known:
-            return cls._known[key]
+        known = cls._known.get(key)
+
+        # a name or symbol belongs to one prefix, and a prefix has one name and symbol
+        if name:
+            if cls._by_name.get(name, known) is not known:
+                raise ValueError(f"A prefix named {name} is already defined")
+            if known is not None and (known.name or name) != name:
+                raise ValueError(f"{known!r} is already named {known.name}")
+        if symbol:
+            if cls._by_symbol.get(symbol, known) is not known:
+                raise ValueError(f"A prefix with symbol {symbol} is already defined")
+            if known is not None and (known.symbol or symbol) != symbol:
+                raise ValueError(f"{known!r} already has the symbol {known.symbol}")
+
+        if known is not None:
+            return known
 
         self = super().__new__(cls)
         self._initialized = False
@@ -656,6 +670,15 @@ class Prefix:
         symbol: Optional[str] = None,
     ) -> None:
         if self._initialized:
+            # a prefix that was first created anonymously (as Prefix(10, -1) is for
+            # the decibel) is named by a later declaration of the same prefix
+            if self.base == base and self.exponent == exponent:
+                if name and not self.name:
+                    self.name = name
+                    self._by_name[name] = self
+                if symbol and not self.symbol:
+                    self.symbol = symbol
+                    self._by_symbol[symbol] = self
             return
 
         self.base = base
